@@ -163,7 +163,7 @@ def check(run, driver):
             X = rng.standard_normal((N, 1)); Y = rng.standard_normal((N, 1)) + (X if it % 2 else 0)
             Z = rng.standard_normal((N, kz)) if kz else None
         alpha = float(rng.choice([0.05, 0.1, 0.5])); n = int(rng.integers(4, 13))
-        kw = dict(metric="euclidean", k_means=int(rng.integers(2, 5)), bandwidth="silverman")
+        kw = dict(metric=["euclidean", "minkowski", "chebyshev", "cityblock"][(it // 5) % 4], k_means=int(rng.integers(1, 5)), bandwidth=["silverman", "scott", 0.8][(it // 5) % 3])
 
         def est(Xp, Yp, Zp=None, **k):
             import warnings
